@@ -130,6 +130,10 @@ def _():
     first = the(assigns(uc, "need_to_rerun")[:1], "need_to_rerun = True")
     if src(first.value) != "True":
         raise SiteError("the loop must run at least once")
+    # `newly_completed = set()` must be initialised once, BEFORE the loop: the names of every pass are returned
+    inits = [s for s in walk_stmts(uc) if isinstance(s, ast.Assign) and src(s.targets[0]) == "newly_completed"]
+    the(inits, "newly_completed = set()")
+    accumulates = inits[0] in uc.body and src(inits[0].value) == "set()"
     fr = the([s for s in loop.body if isinstance(s, ast.For) and "process_results" in src(s.iter)], "for result in …")
     if src(fr.iter) != "itertools.chain(aggregator.process_results(), new_results)":
         raise SiteError("a pass no longer reads process_results() + the rows canceled in the previous pass")
@@ -173,7 +177,9 @@ def _():
             "/-- `_cancel_job`: return code of the canceled row -/\n"
             f"def cancelCode : Int := {code}\n\n"
             "/-- the loop body runs at least once; rows canceled in a pass feed the next pass -/\n"
-            "def collectAtLeastOnce : Bool := true")
+            "def collectAtLeastOnce : Bool := true\n\n"
+            "/-- `newly_completed` is initialised before the loop: what the round reports is the union over all passes -/\n"
+            f"def newlyAccumulatesAcrossPasses : Bool := {'true' if accumulates else 'false'}")
 
 
 @site("round.isComplete", "Round", P)
